@@ -1,4 +1,5 @@
 import PynProofs.SetOps
+import PynProofs.Diff
 import PynModel.Core.ISet
 /-!
 # C02 — union / intersect / set_diff are the Boolean set operations on the time line
@@ -6,14 +7,21 @@ import PynModel.Core.ISet
 Model: `Pyn.jitintersect`, `Pyn.jitunion`, `Pyn.jitdiff`, `Pyn.jitunionIsets` (index-level
 transliterations, all reads `a[i]'h`), public operations = constructor ∘ kernel (`Pyn.ISet.*`).
 
-Proved here (all sizes, all coincidence patterns): *soundness of intersect* — every interval the
-sweep emits is exactly `A[i] ∩ B[j]` for the parent indices it records, has positive length, hence
-every instant of the result lies in both operands; the *n-ary union* kernel `jitunion_isets`
-pointwise and exactly (`unionIsets_mem`: x in the output ⇔ x in some input interval); *set_diff ⊆ A*
-with every emitted piece inside the interval of A recorded as its parent (`diff_entries`,
-`diff_subset`).  Completeness of intersect / set_diff and the pointwise statement for the binary
-`jitunion` are **not proved**: they are decided by the exhaustive order-type correspondence +
-pointwise oracle of the check (stated in the evidence).
+Proved here (all sizes, all coincidence patterns):
+* **intersect, exactly**: every interval the sweep emits is `A[i] ∩ B[j]` for the parent indices it records,
+  with positive length (`intersect_entries / _sound / _positive`, no hypothesis); for canonical operands every
+  pair of intervals overlapping with positive length IS emitted (`intersect_pairs_complete`), hence
+  `intersect_complete` and the C02 clause `intersect_pointwise`: for x not an endpoint of A,
+  x ∈ A.intersect(B) ⇔ x ∈ A ∧ x ∈ B;
+* **set_diff, exactly**: every emitted piece lies inside the interval of A recorded as its parent
+  (`diff_entries`, `diff_subset`); every instant of A outside B is in a piece (`diff_complete`, no
+  hypothesis on the operands); for canonical operands every piece lies between intervals of B
+  (`diff_between`, `diff_avoids`); together the C02 clause `diff_pointwise`: for x not an endpoint of B,
+  x ∈ A.set_diff(B) ⇔ x ∈ A ∧ x ∉ B;
+* the **n-ary union** kernel `jitunion_isets` pointwise and exactly (`unionIsets_mem`).
+The pointwise statement for the BINARY `jitunion` (chain merging) and the duration identities are **not
+proved**: they are decided by the exhaustive order-type correspondence + pointwise oracle of the check
+(stated in the evidence).
 -/
 namespace Pyn.C02
 open Pyn
@@ -48,39 +56,47 @@ theorem intersect_positive (s1 e1 s2 e2 : Array Int) (h1 : s1.size = e1.size) (h
   have := hc1 _ hi; have := hc2 _ hj
   omega
 
+/-- **intersect, completeness on pairs**: for canonical A and B, every pair of intervals overlapping with
+positive length is emitted (with both parents recorded) -/
+theorem intersect_pairs_complete (s1 e1 s2 e2 : Array Int) (h1 : s1.size = e1.size) (h2 : s2.size = e2.size)
+    (hcA : Canon s1 e1 h1) (hcB : Canon s2 e2 h2) (a b : Nat) (hab : Ovl s1 e1 s2 e2 h1 h2 a b) :
+    (a, b) ∈ (jitintersect s1 e1 s2 e2 h1 h2).par :=
+  jitintersectLoop_complete s1 e1 s2 e2 h1 h2 hcA hcB 0 0 {} (fun _ _ _ h => by omega) a b hab
+
+/-- membership of an instant in the output of `jitintersect` -/
+def InI (o : IOut) (x : Int) : Prop := ∃ k, ∃ hk : k < o.st.size, ∃ hk2 : k < o.en.size, o.st[k] ≤ x ∧ x ≤ o.en[k]
+
+/-- **intersect ⊇ A ∧ B, pointwise**: for canonical operands, an instant lying in interval `i` of A and in
+interval `j` of B lies in `A.intersect(B)` as soon as the two intervals overlap with positive length — in
+particular whenever the instant is not an endpoint of both (`intersect_pointwise`) -/
+theorem intersect_complete (s1 e1 s2 e2 : Array Int) (h1 : s1.size = e1.size) (h2 : s2.size = e2.size)
+    (hcA : Canon s1 e1 h1) (hcB : Canon s2 e2 h2) (x : Int) (i j : Nat) (hi : i < s1.size) (hj : j < s2.size)
+    (hA : s1[i] ≤ x ∧ x ≤ e1[i]'(h1 ▸ hi)) (hB : s2[j] ≤ x ∧ x ≤ e2[j]'(h2 ▸ hj))
+    (hov : s1[i] < e2[j]'(h2 ▸ hj) ∧ s2[j] < e1[i]'(h1 ▸ hi)) :
+    InI (jitintersect s1 e1 s2 e2 h1 h2) x := by
+  have hm := intersect_pairs_complete s1 e1 s2 e2 h1 h2 hcA hcB i j ⟨hi, hj, hov.1, hov.2⟩
+  obtain ⟨k, hk, hke⟩ := Array.mem_iff_getElem.1 hm
+  obtain ⟨ha, hb, hc⟩ := intersect_entries s1 e1 s2 e2 h1 h2
+  obtain ⟨hi', hj', hs, he, _, _⟩ := hc k (by omega) (by omega) hk
+  refine ⟨k, by omega, by omega, ?_, ?_⟩
+  · rw [hs]; simp only [hke]; omega
+  · rw [he]; simp only [hke]; omega
+
+/-- **intersect, exact pointwise** (the C02 clause): for canonical A and B and every instant `x` strictly
+inside an interval of A (i.e. not an endpoint of A), `x ∈ A.intersect(B)` iff `x ∈ A` and `x ∈ B` -/
+theorem intersect_pointwise (s1 e1 s2 e2 : Array Int) (h1 : s1.size = e1.size) (h2 : s2.size = e2.size)
+    (hcA : Canon s1 e1 h1) (hcB : Canon s2 e2 h2) (x : Int) (i : Nat) (hi : i < s1.size)
+    (hA : s1[i] < x ∧ x < e1[i]'(h1 ▸ hi)) :
+    InI (jitintersect s1 e1 s2 e2 h1 h2) x ↔ InIv s2 e2 h2 x := by
+  constructor
+  · rintro ⟨k, hk, hk2, a, b⟩
+    exact (intersect_sound s1 e1 s2 e2 h1 h2 k hk x a b).2
+  · rintro ⟨j, hj, a, b⟩
+    exact intersect_complete s1 e1 s2 e2 h1 h2 hcA hcB x i j hi hj ⟨by omega, by omega⟩ ⟨a, b⟩ ⟨by omega, by omega⟩
+
 /-! ## n-ary union: pointwise and exact; set_diff: every piece inside its recorded parent -/
 
 /-- `x` lies in one of the closed intervals of a kernel output -/
-def InU (o : UOut) (x : Int) : Prop :=
-  ∃ k, ∃ h1 : k < o.st.size, ∃ h2 : k < o.en.size, o.st[k] ≤ x ∧ x ≤ o.en[k]
-
-theorem InU_push (o : UOut) (hsz : o.st.size = o.en.size) (s e x : Int) :
-    InU { st := o.st.push s, en := o.en.push e } x ↔ InU o x ∨ (s ≤ x ∧ x ≤ e) := by
-  constructor
-  · rintro ⟨k, h1, h2, a, b⟩
-    simp only [Array.size_push] at h1 h2
-    by_cases hk : k < o.st.size
-    · left
-      refine ⟨k, hk, by omega, ?_, ?_⟩
-      · simpa [Array.getElem_push_lt hk] using a
-      · have hk2 : k < o.en.size := by omega
-        simpa [Array.getElem_push_lt hk2] using b
-    · right
-      have hk1 : k = o.st.size := by omega
-      subst hk1
-      constructor
-      · simpa using a
-      · have : o.st.size = o.en.size := hsz
-        simp only [this] at b ⊢
-        simpa using b
-  · rintro (⟨k, h1, h2, a, b⟩ | ⟨a, b⟩)
-    · refine ⟨k, by simp; omega, by simp; omega, ?_, ?_⟩
-      · simpa [Array.getElem_push_lt h1] using a
-      · simpa [Array.getElem_push_lt h2] using b
-    · refine ⟨o.st.size, by simp, by simp; omega, ?_, ?_⟩
-      · simpa using a
-      · simp only [hsz]; simpa using b
-
 theorem unionIsetsLoop_sizes (st en : Array Int) (h : st.size = en.size) (i : Nat) (curS e : Int) (out : UOut)
     (hsz : out.st.size = out.en.size) :
     (unionIsetsLoop st en h i curS e out).st.size = (unionIsetsLoop st en h i curS e out).en.size := by
@@ -306,6 +322,68 @@ theorem diff_subset (s1 e1 s2 e2 : Array Int) (h1 : s1.size = e1.size) (h2 : s2.
   obtain ⟨hp, a, b⟩ := hc k hk (ha ▸ hk) (hb ▸ hk)
   exact ⟨_, hp, by omega, by omega⟩
 
+
+/-- **set_diff ⊇ A \ B, pointwise** (no hypothesis on the operands): an instant lying in an interval of A
+and in no interval of B lies in an interval of `A.set_diff(B)` -/
+theorem diff_complete (s1 e1 s2 e2 : Array Int) (h1 : s1.size = e1.size) (h2 : s2.size = e2.size) (x : Int)
+    (hA : InIv s1 e1 h1 x) (hB : ¬ InIv s2 e2 h2 x) : InD (jitdiff s1 e1 s2 e2 h1 h2) x := by
+  have hnb : NotB s2 e2 h2 x := by
+    intro b hb
+    rcases Int.lt_or_le x s2[b] with h | h
+    · exact Or.inl h
+    · rcases Int.lt_or_le (e2[b]'(h2 ▸ hb)) x with h' | h'
+      · exact Or.inr h'
+      · exact absurd ⟨b, hb, h, h'⟩ hB
+  obtain ⟨a, ha, a1, a2⟩ := hA
+  unfold jitdiff
+  obtain ⟨r1, r2, r3⟩ := jitdiffLoop_cover s1 e1 s2 e2 h1 h2 x hnb 0 0 {} rfl (fun a ha => by omega)
+  obtain ⟨q1, q2⟩ := emitRestD_cover s1 e1 h1 x (jitdiffLoop s1 e1 s2 e2 h1 h2 0 0 {}).1
+    (jitdiffLoop s1 e1 s2 e2 h1 h2 0 0 {}).2 r1
+  rcases Nat.lt_or_ge a (jitdiffLoop s1 e1 s2 e2 h1 h2 0 0 {}).1 with h | h
+  · exact q1 x (r3 a h ⟨ha, a1, a2⟩)
+  · exact q2 a h ⟨ha, a1, a2⟩
+
+
+/-- **set_diff avoids B**: for canonical A and B, every piece of `A.set_diff(B)` lies between intervals of B — it
+meets no interval of B in more than an endpoint -/
+theorem diff_between (s1 e1 s2 e2 : Array Int) (h1 : s1.size = e1.size) (h2 : s2.size = e2.size)
+    (hcA : Canon s1 e1 h1) (hcB : Canon s2 e2 h2) : DB s2 e2 h2 (jitdiff s1 e1 s2 e2 h1 h2) := by
+  unfold jitdiff
+  obtain ⟨r1, r2, r3⟩ := jitdiffLoop_between s1 e1 s2 e2 h1 h2 hcA hcB 0 0 {} rfl
+    (fun k hk => by simp at hk) (fun b hb => by omega)
+  exact emitRestD_between s1 e1 s2 e2 h1 h2 hcA _ _ r1 r2 r3
+
+theorem diff_avoids (s1 e1 s2 e2 : Array Int) (h1 : s1.size = e1.size) (h2 : s2.size = e2.size)
+    (hcA : Canon s1 e1 h1) (hcB : Canon s2 e2 h2) (k : Nat) (hk : k < (jitdiff s1 e1 s2 e2 h1 h2).st.size)
+    (hk2 : k < (jitdiff s1 e1 s2 e2 h1 h2).en.size) (x : Int)
+    (hx1 : (jitdiff s1 e1 s2 e2 h1 h2).st[k] < x) (hx2 : x < (jitdiff s1 e1 s2 e2 h1 h2).en[k]) :
+    ¬ InIv s2 e2 h2 x := by
+  rintro ⟨j, hj, a, b⟩
+  rcases diff_between s1 e1 s2 e2 h1 h2 hcA hcB k hk hk2 j hj with h | h <;> omega
+
+/-- **set_diff, exact pointwise** (the C02 clause): for canonical A and B and every instant `x` that is not an
+endpoint of B, `x ∈ A.set_diff(B)` iff `x ∈ A` and `x ∉ B` -/
+theorem diff_pointwise (s1 e1 s2 e2 : Array Int) (h1 : s1.size = e1.size) (h2 : s2.size = e2.size)
+    (hcA : Canon s1 e1 h1) (hcB : Canon s2 e2 h2) (x : Int)
+    (hne : ∀ j, (hj : j < s2.size) → x ≠ s2[j] ∧ x ≠ e2[j]'(h2 ▸ hj)) :
+    InD (jitdiff s1 e1 s2 e2 h1 h2) x ↔ (InIv s1 e1 h1 x ∧ ¬ InIv s2 e2 h2 x) := by
+  constructor
+  · rintro ⟨k, hk, hk2, a, b⟩
+    have he2 : Sorted e2 := fun p q hp hq hpq => canon_en_mono s2 e2 h2 hcB p q hpq (by omega)
+    refine ⟨diff_subset s1 e1 s2 e2 h1 h2 he2 k hk x a b, ?_⟩
+    rintro ⟨j, hj, c, d⟩
+    have := hne j hj
+    rcases diff_between s1 e1 s2 e2 h1 h2 hcA hcB k hk hk2 j hj with h | h <;> omega
+  · rintro ⟨hA, hB⟩
+    exact diff_complete s1 e1 s2 e2 h1 h2 x hA hB
+
+
+/-! non-vacuity of the hypotheses: canonical operands with shared endpoints, and an instant meeting them -/
+example : Canon #[0, 10] #[5, 20] rfl ∧ Canon #[3, 5, 15] #[4, 12, 20] rfl := by
+  refine ⟨⟨?_, ?_⟩, ⟨?_, ?_⟩⟩ <;> intro k h <;> simp at h <;> (first | omega | skip) <;>
+    (rcases k with _ | _ | _ | k <;> simp at h ⊢ <;> omega)
+example : InI (jitintersect #[0, 10] #[5, 20] #[3, 5, 15] #[4, 12, 20] rfl rfl) 11 := ⟨1, by decide +kernel, by decide +kernel, by decide +kernel⟩
+example : InD (jitdiff #[0] #[10] #[2, 5] #[3, 6] rfl rfl) 4 := ⟨1, by decide +kernel, by decide +kernel, by decide +kernel⟩
 
 /-! non-vacuity / concrete sweeps (shared starts, shared ends, end == start, nested, interleaved) -/
 example : (jitintersect #[0, 10] #[5, 20] #[3, 5, 15] #[4, 12, 20] rfl rfl).st = #[3, 10, 15] := by decide +kernel
